@@ -17,7 +17,14 @@ CLAIMED = {
   note="Trusted: the reference model sim/models/eqalgebra.py (40 lines of exact Fraction/sympy arithmetic), Python's Fraction and sympy.simplify for symbolic constants. Bases carry no inactive parts (excluded by the property). The value of Equilibrium.cancel is not asserted.",
   design_ref="DESIGN.md section 3.3"),
 }
-PENDING = {"C08": "check under construction in this session (claimed in DESIGN.md; will move to checks when built)", "C15": "check under construction in this session (claimed in DESIGN.md; will move to checks when built)"}
+CLAIMED["C15"] = dict(
+  level="exploration",
+  technique="deterministic simulation: seeded operation histories on mutable, object-sharing ReactionSystem instances with fault injection into user callbacks and reaction iterables (k-th call raises, non-Reaction item), refinement against a graph reference model after every step, hash-seed configurations, ddmin-minimised replay",
+  text="Seeded search over histories (construct, +, +=, subset, split, concatenate interleaved with categorize/identify_equilibria/participation/effect/array/dict/index/varied/upper-bound queries; 3-20 steps) on a pool of live systems that share Reaction and Substance objects. After every step every live system is compared with the model (ordered reaction identities and substance keys), so a leak into a sibling, a partially applied failed operation or a mutated caller-owned list is caught; every query result is recomputed from raw stoichiometry by definition (union-find components, category definitions, exact-Fraction bounds with alternative states of equal element totals). Sampling, not proof.",
+  note="Trusted: sim/models/rsysgraph.py. The first argument of concatenate is retired (its mutation is unspecified). identify_equilibria asserted exactly only when reverse partners are unique. Random reactions are not element-balanced: formula-mode systems are built with dont_check={'balance'} or checks=().",
+  design_ref="DESIGN.md section 3.4")
+
+PENDING = {"C08": "check under construction in this session (claimed in DESIGN.md; will move to checks when built)"}
 
 NA = {
  "C01": "formula parsing is a pure function of the input string; the only shared object (memoised pyparsing grammar) is never written after construction and chempy has no second task, clock or I/O on this path: nothing to schedule or fault (parser misreads do surface through C02's independent composition oracle)",
